@@ -819,6 +819,63 @@ pub fn execute(sc: &Scenario) -> Result<Outcome, String> {
         ),
     });
     out.evals += asm.plan.len();
+    // The bytes-in API (`eval_phase_two_raw*`, what bindings and `aiken tx simulate` feed) must
+    // give the same answer as the typed one.
+    if let (Some(b), Ok(typed)) = (budget.as_ref(), result.as_ref()) {
+        let utxo_bytes: Vec<(Vec<u8>, Vec<u8>)> = asm
+            .utxos
+            .iter()
+            .filter_map(|u| Some((u.input.encode_fragment().ok()?, u.output.encode_fragment().ok()?)))
+            .collect();
+        let cm_bytes = if sc.with_cost_models { cm.encode_fragment().ok() } else { None };
+        if utxo_bytes.len() == asm.utxos.len() && b.cpu >= 0 && b.mem >= 0 {
+            let raw = guard(|| match sc.protocol {
+                Some(pv) => uplc::tx::eval_phase_two_raw_with_protocol(
+                    &asm.tx_bytes,
+                    &utxo_bytes,
+                    cm_bytes.as_deref(),
+                    (b.cpu as u64, b.mem as u64),
+                    sc.slot_config,
+                    pv,
+                    sc.run_phase_one,
+                    noop,
+                ),
+                None => uplc::tx::eval_phase_two_raw(
+                    &asm.tx_bytes,
+                    &utxo_bytes,
+                    cm_bytes.as_deref(),
+                    (b.cpu as u64, b.mem as u64),
+                    sc.slot_config,
+                    sc.run_phase_one,
+                    noop,
+                ),
+            });
+            out.evals += 1;
+            let render_typed = match typed {
+                Ok(rs) => format!("ok {:?}", rs.iter().map(|(r, _)| (tag_order(&r.tag), r.index, r.ex_units.steps, r.ex_units.mem)).collect::<Vec<_>>()),
+                Err(_) => "err".to_string(),
+            };
+            let render_raw = match &raw {
+                Err(p) => format!("panic {} @ {}", p.message, p.site()),
+                Ok(Ok(rs)) => format!(
+                    "ok {:?}",
+                    rs.iter()
+                        .map(|(bytes, _)| match Redeemer::decode_fragment(bytes) {
+                            Ok(r) => (tag_order(&r.tag), r.index, r.ex_units.steps, r.ex_units.mem),
+                            Err(_) => (9, 0, 0, 0),
+                        })
+                        .collect::<Vec<_>>()
+                ),
+                Ok(Err(_)) => "err".to_string(),
+            };
+            if render_typed != render_raw {
+                out.violations.push((
+                    "raw-api-differs".into(),
+                    format!("eval_phase_two_raw on the encoded transaction / resolved inputs / cost models answers {render_raw}, the typed API answers {render_typed}"),
+                ));
+            }
+        }
+    }
     let describe = |r: &Result<Vec<(Redeemer, uplc::machine::eval_result::EvalResult)>, uplc::tx::error::Error>| match r {
         Ok(rs) => format!(
             "Ok({:?})",
